@@ -183,7 +183,7 @@ def system_cases(ctx, n, thorough=False):
         if c.api == "file" and rng.random() < 0.3 and all(s for _, s in recs):
             # the same records in an untidy FASTA file: stray gap glyphs that do not form an alignment (rows of unequal length), a trailing
             # stop-codon '*', or an aligned block followed by unaligned records -- kalign announces it will drop the gaps and align
-            style = rng.choice(["stray", "star", "mixed"])
+            style = rng.choice(["stray", "star", "mixed", "plain"])
             out = []
             for k, (nm, sq) in enumerate(recs):
                 row = sq
@@ -195,7 +195,9 @@ def system_cases(ctx, n, thorough=False):
                     L = max(len(x) for _, x in recs[:len(recs) // 2]) + 2
                     row = sq + "-" * (L - len(sq))
                 out.append(">%s\n%s\n" % (nm, row))
-            c.intext = "".join(out)
+            c.intext = "\n" * rng.choice([0, 0, 2, 5, 7]) + "".join(out)
+            if rng.random() < 0.5:
+                c.intext = c.intext.rstrip("\n")          # the last line of a file need not end in a newline
             c.tag = "untidy-fasta-" + style
         cases.append(c)
     return cases
